@@ -47,8 +47,11 @@ def check_programs(ctx, progs, dirname, backends=progrun.BACKENDS, prop="c01"):
                 ctx.inconc("compile watchdog: %s %s" % (name, key))
                 continue
             text = progrun.compile_error_text(r)
-            first = next((l for l in text.splitlines() if l.strip()), "")[:160]
             import re
+            lines = [l for l in text.splitlines() if l.strip()]
+            first = next((l for l in lines if l.startswith("fatal error:") or "panicked at" in l or l.startswith("error:")), lines[0] if lines else "")[:160]
+            frames = [l.strip().split(" ")[0] for l in lines if l.startswith("    ") and "(" in l][:3] if first.startswith("fatal error") else []
+            first = first + ("@" + ">".join(frames) if frames else "")
             ctx.violation("%s:compile-rejected:%s:%s" % (prop, key[0], re.sub(r"\d+", "N", first)),
                           "well-typed generated program rejected / compiler failed (%s, features %s):\n%s" % (key[0], p.features, text[-1500:]),
                           files={"program.dora": p.source()})
